@@ -1293,14 +1293,28 @@ func c12R21(ic *IC, r *Report) {
 		if !ok {
 			return true
 		}
+		// an arity test: a condition comparing a count with the number of results of the function
+		// (sc.def.typ.numOut()), whose body raises an error; the direction of the comparison tells which
 		msg := ""
-		ast.Inspect(ifs.Body, func(z ast.Node) bool {
-			if bl, ok := z.(*ast.BasicLit); ok && (strings.Contains(bl.Value, "too many arguments to return") || strings.Contains(bl.Value, "not enough arguments to return")) {
-				msg = strings.Trim(bl.Value, "\"")
+		if len(callsIn(info, ifs.Cond, true, "interp.itype.numOut")) == 0 || len(callsIn(info, ifs.Body, true, "interp.node.cfgErrorf")) == 0 {
+			return true
+		}
+		ast.Inspect(ifs.Cond, func(z ast.Node) bool {
+			be, ok := z.(*ast.BinaryExpr)
+			if !ok {
+				return true
+			}
+			right := len(callsIn(info, be.Y, true, "interp.itype.numOut")) > 0 && strings.Contains(types.ExprString(be.Y), "def")
+			left := len(callsIn(info, be.X, true, "interp.itype.numOut")) > 0 && strings.Contains(types.ExprString(be.X), "def")
+			switch {
+			case right && be.Op == token.GTR, left && be.Op == token.LSS:
+				msg = "too many arguments to return"
+			case right && be.Op == token.LSS, left && be.Op == token.GTR:
+				msg = "not enough arguments to return"
 			}
 			return true
 		})
-		if msg == "" || len(callsIn(info, ifs.Cond, true, "interp.itype.numOut")) == 0 {
+		if msg == "" {
 			return true
 		}
 		n++
